@@ -707,6 +707,10 @@ func init() {
 			w.Phase("render: shapes diagram, theme x overrides, no dark", func() {
 				for _, t := range ids {
 					for _, ov := range sets {
+						// quick: every theme with {none, all}; the 18 single-code sets under default, a dark and the c4 theme
+						if !w.Thorough() && ov != "none" && ov != "all" && t != 0 && t != 200 && t != 303 {
+							continue
+						}
 						w.Eval("render", c31In{Kind: "render", Theme: t, Ov: ov, Diagram: "shapes", Via: "opts"}.String())
 					}
 				}
@@ -715,6 +719,9 @@ func init() {
 				for _, t := range ids {
 					for _, dg := range []string{"sequence", "grid-legend"} {
 						for _, ov := range []string{"none", "all"} {
+							if ov == "none" && !w.Thorough() {
+								continue
+							}
 							w.Eval("render", c31In{Kind: "render", Theme: t, Ov: ov, Diagram: dg, Via: "opts"}.String())
 						}
 					}
@@ -722,14 +729,16 @@ func init() {
 				}
 			})
 			w.Phase("render: with dark theme", func() {
-				darks := []int64{200, 201}
+				darks := []int64{200}
+				combos := [][2]string{{"all", "all"}, {"B1", "N7"}}
 				if w.Thorough() {
 					darks = ids
+					combos = [][2]string{{"none", "none"}, {"all", "all"}, {"B1", "none"}, {"none", "N7"}}
 				}
 				for _, t := range ids {
 					for _, dk := range darks {
 						dk := dk
-						for _, o := range [][2]string{{"none", "none"}, {"all", "all"}, {"B1", "none"}, {"none", "N7"}} {
+						for _, o := range combos {
 							w.Eval("render", c31In{Kind: "render", Theme: t, Dark: &dk, Ov: o[0], Dov: o[1], Diagram: "shapes", Via: "opts"}.String())
 						}
 						w.Eval("render", c31In{Kind: "render", Theme: t, Dark: &dk, Ov: "all", Dov: "all", Diagram: "sequence", Via: "config"}.String())
